@@ -159,6 +159,7 @@ type runOut struct {
 	lines    []string   // spec-mode model lines
 	perOp    [][]string // per op: result + observation lines (for cross-backend comparison)
 	blines   []string   // badger-mode model lines (badger backend only)
+	plines   []string   // pathbadger-mode model lines (pathbadger backend only)
 	restrict bool
 	panicked string
 	nops     int
@@ -179,6 +180,9 @@ type backendRun struct {
 	fin   map[string]bool // roots chosen by a successful Finalize ("v:t:id")
 	out   *runOut
 	nlog  *nodeLog
+	plog  *pathLog
+	// contents the driver committed under a root ("v t id"), for classifying read-backs
+	rootCont map[string]string
 }
 
 func (b *backendRun) addKnown(r rootRec) {
@@ -350,6 +354,9 @@ func (b *backendRun) doCommit(w []string) (skip bool, opLines []string) {
 	if b.nlog != nil {
 		b.nlog.reset()
 	}
+	if b.plog != nil {
+		b.plog.reset()
+	}
 	func() {
 		defer func() {
 			if p := recover(); p != nil {
@@ -360,6 +367,9 @@ func (b *backendRun) doCommit(w []string) (skip bool, opLines []string) {
 		var ndb api.NodeDB = b.db
 		if b.nlog != nil {
 			ndb = &logDB{NodeDB: b.db, log: b.nlog}
+		}
+		if b.plog != nil {
+			ndb = &plogDB{NodeDB: b.db, log: b.plog, ht: b.ht}
 		}
 		var tr mkvs.Tree
 		if src == nil {
@@ -403,6 +413,7 @@ func (b *backendRun) doCommit(w []string) (skip bool, opLines []string) {
 		b.tags[tag] = rec
 		b.cont[tag] = want
 		b.addKnown(rec)
+		b.rootCont[fmt.Sprintf("%d %d %d", v, t, hid)] = want.String()
 	}
 	if res == "restricted" {
 		b.out.restrict = true
@@ -412,6 +423,9 @@ func (b *backendRun) doCommit(w []string) (skip bool, opLines []string) {
 	opLines = append(opLines, line)
 	if b.nlog != nil {
 		b.out.blines = append(b.out.blines, b.nlog.commitLine(b.ht, t, v, sv, sh, hid, res))
+	}
+	if b.plog != nil {
+		b.out.plines = append(b.out.plines, b.plog.commitLine(t, v, sv, sh, hid, res))
 	}
 	return false, opLines
 }
@@ -495,6 +509,9 @@ func (b *backendRun) doFinalize(w []string) (bool, []string) {
 	if b.nlog != nil {
 		b.out.blines = append(b.out.blines, fmt.Sprintf("finalize %d %s %s", v, ids, res))
 	}
+	if b.plog != nil {
+		b.out.plines = append(b.out.plines, fmt.Sprintf("finalize %d %s %s", v, ids, res))
+	}
 	// keep is a witness and legitimately differs between backends: not part of the comparison
 	return false, []string{fmt.Sprintf("finalize %d %s %s", v, ids, res)}
 }
@@ -516,12 +533,15 @@ func (b *backendRun) doPrune(w []string) (bool, []string) {
 	if b.nlog != nil {
 		b.out.blines = append(b.out.blines, line)
 	}
+	if b.plog != nil {
+		b.out.plines = append(b.out.plines, line)
+	}
 	return false, []string{line}
 }
 
 // runBackend executes the case on one real backend.
 func runBackend(kind string, ops []string, ht *hashTable, withNodeLog bool) *runOut {
-	out := &runOut{lines: []string{"mode spec"}, blines: []string{"mode badger"}, cutOp: -1}
+	out := &runOut{lines: []string{"mode spec"}, blines: []string{"mode badger"}, plines: []string{"mode pathbadger"}, cutOp: -1}
 	dir, err := os.MkdirTemp(scratch(), "dbdrv-"+kind+"-")
 	if err != nil {
 		out.panicked = "mkdtemp: " + err.Error()
@@ -534,8 +554,12 @@ func runBackend(kind string, ops []string, ht *hashTable, withNodeLog bool) *run
 		return out
 	}
 	b := &backendRun{kind: kind, dir: dir, db: db, ht: ht, tags: map[string]rootRec{}, cont: map[string]contents{}, out: out, last: -1, fin: map[string]bool{}}
+	b.rootCont = map[string]string{}
 	if withNodeLog {
 		b.nlog = newNodeLog()
+	}
+	if kind == "pathbadger" && pathModelEnabled {
+		b.plog = &pathLog{}
 	}
 	defer func() { b.db.Close() }()
 	for _, op := range ops {
@@ -575,6 +599,9 @@ func runBackend(kind string, ops []string, ht *hashTable, withNodeLog bool) *run
 		if b.nlog != nil {
 			b.out.blines = append(b.out.blines, b.badgerObsLines()...)
 		}
+		if b.plog != nil {
+			b.out.plines = append(b.out.plines, b.pathObsLines()...)
+		}
 		out.perOp = append(out.perOp, opLines)
 		if out.panicked != "" {
 			break
@@ -611,7 +638,7 @@ func checkFor(ops []string, sig string) bool {
 	switch {
 	case strings.HasPrefix(sig, "badger:"), strings.HasPrefix(sig, "badger-model:"):
 		only = "badger"
-	case strings.HasPrefix(sig, "pathbadger:"):
+	case strings.HasPrefix(sig, "pathbadger:"), strings.HasPrefix(sig, "pathbadger-model:"):
 		only = "pathbadger"
 	}
 	for _, x := range checkOnly(ops, nil, false, only) {
@@ -649,6 +676,7 @@ func judge(ops []string, outs map[string]*runOut, res *hlib.Result, count bool, 
 	if d := os.Getenv("VERIF_DUMP"); d != "" {
 		_ = os.WriteFile(d+".badger", []byte(strings.Join(outs["badger"].blines, "\n")+"\n"), 0o644)
 		_ = os.WriteFile(d+".ops", []byte(strings.Join(ops, "\n")+"\n"), 0o644)
+		_ = os.WriteFile(d+".pathbadger", []byte(strings.Join(outs["pathbadger"].plines, "\n")+"\n"), 0o644)
 	}
 	if o := outs["badger"]; len(o.blines) > 1 && badgerModelEnabled {
 		ans, err := hlib.RunModel("nodedb", o.blines)
@@ -669,6 +697,20 @@ func judge(ops []string, outs map[string]*runOut, res *hlib.Result, count bool, 
 			}
 			if count && res != nil {
 				res.CountN("badger-model:lines", len(ans))
+			}
+		}
+	}
+	// 1b. the pathbadger bookkeeping model as an exact oracle of the pathbadger backend
+	if o := outs["pathbadger"]; o != nil && len(o.plines) > 1 && pathModelEnabled && (only == "" || only == "pathbadger") {
+		ans, err := hlib.RunModel("nodedb", o.plines)
+		if err != nil {
+			vs = append(vs, verdict{"divergence", "pathbadger-model:model-error", err.Error()})
+		} else {
+			if i := hlib.FirstBad(ans, "ok"); i >= 0 {
+				vs = append(vs, verdict{"divergence", sigOf("pathbadger-model", ans[i]), fmt.Sprintf("pathbadger model at line %d `%s`: %s", i, o.plines[i], ans[i])})
+			}
+			if count && res != nil {
+				res.CountN("pathbadger-model:lines", len(ans))
 			}
 		}
 	}
